@@ -1,14 +1,27 @@
-(* Property C20 — Independent objects can be used from concurrent goroutines
-   Statement-level file; see DESIGN.md §6 C20.  Model-level theorems are under
-   proof in Proofs/ (see obligations.json); this file carries the tie
-   obligations and what is proved so far; the property is decided on every run
-   by the correspondence described in DESIGN.md. *)
-From SJ Require Import Model.Base Model.RefTables Spec.Json Model.Tape Model.Iter Model.Serialize Model.FloatFmt Model.Marshal Tie.GoTablesTie Tie.SerializeTie.
-Open Scope N_scope.
-(* partial by nature: Go-memory-model data races are not expressible in a
-   Gallina model; the non-interference theorem over the pool discipline is in
-   Proofs/PoolProofs.v when delivered; this file ties the shared constants. *)
+(* Property C20 — independent objects can be used from concurrent goroutines.
+   Partial by nature: Go-memory-model data races are a run-time matter (race
+   detector).  What is proved: non-interference through the shared object pools
+   for every interleaving, given the codec contract "after Reset the output
+   depends only on subsequent writes" (a Section hypothesis, i.e. an explicit
+   premise) and the Get/Reset discipline read off the code. *)
+From SJ Require Import Model.Base Model.Pool Proofs.PoolProofs Model.RefTables Tie.GoTablesTie Tie.SerializeTie.
+
+Theorem C20_pool_noninterference : forall (X Y C : Type) (fresh : C) (reset : C -> C) (write : X -> C -> C) (close : C -> Y * C),
+  (forall c1 c2, obs_eq X Y C write close (reset c1) (reset c2)) ->
+  forall progs sched, forallb disciplined progs = true ->
+  done X Y C (grun X Y C fresh reset write close (ginit X Y C progs) sched) = true ->
+  forall tid p, nth_error progs tid = Some p ->
+  outs_of X Y C (grun X Y C fresh reset write close (ginit X Y C progs) sched) tid =
+  solo_outs X Y C fresh reset write close p.
+Proof. exact pool_noninterference_all. Qed.
+
+(* anytime version, needing only the goroutine's own discipline *)
+Definition C20_pool_noninterference_prefix := pool_noninterference.
+(* the discipline matters: without the Reset after Get some interleaving leaks *)
+Definition C20_reset_matters := reset_matters.
+
 Theorem C20_tie_block_types :
-  gen.Consts.gen_blockTypeUncompressed = 0 /\ gen.Consts.gen_blockTypeS2 = 1 /\ gen.Consts.gen_blockTypeZstd = 2.
+  gen.Consts.gen_blockTypeUncompressed = 0%N /\ gen.Consts.gen_blockTypeS2 = 1%N /\ gen.Consts.gen_blockTypeZstd = 2%N.
 Proof. destruct tie_serializer_consts as (_ & _ & A & B & C & _). exact (conj A (conj B C)). Qed.
-Print Assumptions C20_tie_block_types.
+
+Print Assumptions C20_pool_noninterference.
